@@ -533,6 +533,10 @@ def build_one(rng, pid):
                 p.set(l, "clear_information_fields")
     elif kind == 7:                                         # SNAP / Raw, SNAP / Dot1Q / Raw
         s = p.push("SNAP")
+        if rng.random() < 0.15:                             # SNAP / PPPoE session
+            i = p.push("PPPoE"); p.push("RawPDU", hexs(api_raw(rng, nonempty=True)))
+            p.set(s, "org_code", rng.randrange(1 << 24))
+            return p.done()
         inner_q = rng.random() < 0.3
         if inner_q:
             q = p.push("Dot1Q", rng.randrange(4096), 0)
@@ -559,6 +563,12 @@ def build_one(rng, pid):
         elif k < 0.35:
             m = p.push("MPLS"); p.push("RawPDU", hexs(api_raw(rng, avoid_ip_nibble=True)))
             p.ops.append(f"set {m} bottom_of_stack 1"); mpls_setters(rng, p, m)
+        elif k < 0.5:                                       # PPPoE behind SLL: session (0x8864) or discovery (0x8863)
+            i = p.push("PPPoE")
+            if rng.random() < 0.5:
+                p.push("RawPDU", hexs(api_raw(rng, nonempty=True)))
+            else:
+                p.ops.append(f"set {i} code 9"); pppoe_tag_ops(rng, p, i)
         elif k < 0.9:
             p.push("RawPDU", hexs(api_raw(rng))); free = True
         for _ in range(rng.randint(0, 4)):
@@ -597,8 +607,10 @@ def build_one(rng, pid):
         if rng.random() < 0.5:
             m = p.push("MPLS"); p.push("RawPDU", hexs(api_raw(rng, avoid_ip_nibble=True)))
             p.ops.append(f"set {m} bottom_of_stack 1"); mpls_setters(rng, p, m)
-        else:
+        elif rng.random() < 0.5:
             i = p.push("PPPoE"); p.set(i, "code", 0x09); pppoe_tag_ops(rng, p, i)
+        else:                                               # session stage behind a VLAN tag: EtherType 0x8864
+            i = p.push("PPPoE"); p.push("RawPDU", hexs(api_raw(rng, nonempty=True))); p.set(i, "session_id", rng.randrange(65536))
         dot1q_setters(rng, p, q, free_tag=False)
     else:                                                   # single layers, all setters
         c = rng.choice(["EthernetII", "Dot3", "SNAP", "Dot1Q", "MPLS", "PPPoE", "SLL", "Loopback", "LLC"])
@@ -656,6 +668,9 @@ def gen_build(rng, n):
     ops += big_programs(rng, pid)
     # LLC information fields (known finding KF-C04-L2-1: the parser does not re-create them) — reproduced on every run
     ops += ["new", "push LLC 170 171", "set 0 type 3", "set 0 modifier_function 29", "set 0 add_xid_information 129 1 8", "show"]
+    # Dot1Q::append_padding_ is not on the wire (known finding KF-C04-L2-4): a length-delimited payload does not absorb the
+    # padding, so the re-parsed packet serializes without it
+    ops += ["new", "push Dot1Q 67 1", "push PPPoE", "push RawPDU 07a6ad9e19", "show"]
     for _ in range(3):
         ops += pktap_push_ops(rng)
     while len(ops) < n:
@@ -668,9 +683,29 @@ def gen_build(rng, n):
 
 # ------------------------------------------------------------------------------------------------ known-finding signatures
 
+def padded_dot1q(case):
+    """does the program leave some Dot1Q with append_padding switched on?"""
+    state = {}
+    idx = -1
+    for l in case:
+        w = l.split(" ")
+        if w[0] == "new":
+            state, idx = {}, -1
+        elif w[0] == "push":
+            idx += 1
+            if w[1] == "Dot1Q":
+                state[idx] = (len(w) < 4) or w[3] == "1"        # default constructor pads
+        elif w[0] == "set" and len(w) == 4 and w[2] == "append_padding" and int(w[1]) in state:
+            state[int(w[1])] = w[3] == "1"
+    return any(state.values())
+
+
 def refine_sig(sig, case, detail):
     """narrowing keys computed from the minimised case"""
     text = "\n".join(case)
     if sig.get("class") == "api" and "add_xid_information" in text and "push LLC" in text:
         sig = dict(sig, when="llc-xid-information-fields-not-parsed")
+    elif (sig.get("class") == "api" and sig.get("clause") == "reserialize-fixpoint" and "push PPPoE" in text
+          and padded_dot1q(case)):
+        sig = dict(sig, when="dot1q-append-padding-not-on-wire")
     return sig
